@@ -19,6 +19,7 @@ RoutesM == Same("construct") \cup Same("pickle") \cup Same("deepcopy")
            \cup {[r |-> "upcast", from |-> "Structure", to |-> "Molecule"], [r |-> "upcast", from |-> "Conformer", to |-> "Molecule"],
                  [r |-> "upcast", from |-> "Molecule", to |-> "Structure"]}
            \cup {[r |-> "concat", from |-> "Structure", to |-> "Structure"], [r |-> "concat", from |-> "Molecule", to |-> "Molecule"]}
+           \cup {[r |-> "or", from |-> "Structure", to |-> "Structure"], [r |-> "or", from |-> "Molecule", to |-> "Structure"]}   \* a | b
            \cup {[r |-> "join", from |-> "Structure", to |-> "Structure"], [r |-> "join", from |-> "Molecule", to |-> "Molecule"]}
            \cup {[r |-> "ensemble_from", from |-> "Molecule", to |-> "ConformerEnsemble"]}
            \* constructors called with the source's own arrays as explicit arguments (coords=, atomic_charges=, weights=)
